@@ -2,6 +2,7 @@ package gw
 
 import (
 	"fmt"
+	"net/http"
 	"time"
 
 	"kgsim/sim"
@@ -9,26 +10,37 @@ import (
 
 // RunSmoke is a fixed scenario used to debug the world itself.
 func RunSmoke(r *sim.Run) {
-	w := NewWorld(r, Options{TokenSuccessTTL: 10 * time.Second, TokenFailureTTL: 10 * time.Second, AuthzAllowTTL: 10 * time.Second, AuthzDenyTTL: 10 * time.Second})
+	w := NewWorld(r, defaultOpts())
 	defer w.Stop()
-	cl := w.AddClusterStub("alpha", 2, 0)
+	cl := w.AddClusterStub("alpha", 1, 0)
 	cl.Tokens["tok1"] = Ident{User: "alice", Groups: []string{"dev"}}
-	w.Hosts = []string{"alpha"}
 	if err := w.Apply(BaseCluster("alpha", w.EndpointsOf("alpha"))); err != nil {
 		r.Inconclusive("apply: " + err.Error())
 		return
 	}
-	w.Snapshot()
-	w.Sc.Advance(100 * time.Millisecond)
-	s := w.Snapshot()
-	r.Logf("snap: %+v resolve=%v", s.Clusters["alpha"].Endpoints, s.Resolve)
-	for i := 0; i < 3; i++ {
-		q := &Req{ID: fmt.Sprintf("r%d", i), Host: "alpha:6443", Method: "GET", Target: "/api/v1/namespaces/default/pods?b=2&a=1", Headers: [][2]string{{"Authorization", "Bearer tok1"}, {"Impersonate-Uid", "x"}}}
-		w.Send(q)
-		r.Logf("req %s done=%v status=%d err=%q body=%q", q.ID, q.Done, q.Status, q.ReadErr, string(q.RespBody))
+	w.Boundary()
+	w.Advance(100 * time.Millisecond)
+	w.Boundary()
+	body := genBytes(1, 200000)
+	third := len(body) / 3
+	w.SetScript("s1", &Script{Status: 418, Header: http.Header{}, Body: body}); _ = third
+	q := &Req{ID: "s1", Host: "alpha:6443", Method: "PATCH", Target: "/api/v1/namespaces/ns1/pods/x", Body: genBytes(2, 100)}
+	w.Send(q)
+	r.Logf("after send: done=%v status=%d raw=%d", q.Done, q.Status, q.Raw.Len())
+	for i := 0; i < 10 && !q.Done; i++ {
+		pts := w.Sc.Points()
+		r.Logf("points: %d", len(pts))
+		if len(pts) == 0 {
+			w.Advance(time.Second)
+			continue
+		}
+		w.Release(pts[0], UpRespond)
+		r.Logf("released %s: done=%v raw=%d", pts[0].Key, q.Done, q.Raw.Len())
 	}
+	r.Logf("req done=%v status=%d err=%q body=%d raw=%d", q.Done, q.Status, q.ReadErr, len(q.RespBody), q.Raw.Len())
 	for _, o := range w.UpObs() {
-		r.Logf("up %s %s %s %s id=%s hdr=%v", o.Endpoint, o.Kind, o.Method, o.URI, o.ID, o.Header)
+		r.Logf("up %s %s %s %s id=%s ctxdone=%v done=%v", o.Endpoint, o.Kind, o.Method, o.URI, o.ID, o.CtxDone, o.Done)
 	}
+	_ = fmt.Sprint
 	r.Nontrivial = true
 }
